@@ -60,13 +60,13 @@ pub fn framing_tree() -> TreeSpec {
 pub fn framing_plans(dev: &mut RigDev) {
     dev.plan[H_EV as usize] = Plan::pull(0, 1);
     dev.plan[H_Q1 as usize] = Plan::resp(&[Item::I64(42)]);
-    dev.plan[H_Q3 as usize] = Plan::resp(&[Item::Str(b"a;b,c"), Item::Block(b"x;y"), Item::F32(1.5)]);
+    dev.plan[H_Q3 as usize] = Plan::resp(&[Item::Str(b"a;b,c"), Item::Block(b"x;y"), Item::U8(15)]);
     dev.plan[H_QH as usize] = Plan::resp(&[Item::Header(b"HDR"), Item::Bool(true), Item::I64(-7)]);
     dev.plan[H_QHH as usize] = Plan::resp(&[Item::Header(b"LVL1"), Item::Header(b"LVL2"), Item::Str(b"q\"q")]);
     dev.plan[H_QN as usize] = Plan::resp(&[]);
     dev.plan[H_BQ as usize] = Plan::resp(&[Item::Chr(b"ABC"), Item::Bool(false)]);
     dev.plan[H_BE as usize] = Plan::pull(0, 0);
-    dev.plan[H_QF as usize] = Plan::resp(&[Item::F64(-2.5e-3), Item::Expr(b"1,2:3"), Item::Utf8("h\u{e9}")]);
+    dev.plan[H_QF as usize] = Plan::resp(&[Item::I64(-25), Item::Expr(b"1,2:3"), Item::Utf8("h\u{e9}")]);
     dev.plan[H_QE as usize] = Plan::resp(Box::leak(Box::new([Item::Err(Error::custom(-113, b"Undefined header")), Item::U8(0)])));
     dev.plan[H_QS as usize] = Plan::resp(&[Item::Block(b"ab;")]);
     dev.plan[H_QM as usize] = Plan::resp(&MANY);
@@ -88,7 +88,7 @@ pub fn kinds(all: bool) -> Vec<Kind> {
     let mut v = vec![
         Kind { text: "EV", resp: None, needs_br: false, writes_nothing: false },
         Kind { text: "QON?", resp: Some("42"), needs_br: false, writes_nothing: false },
-        Kind { text: "QTHR?", resp: Some("\"a;b,c\",#13x;y,1.5"), needs_br: false, writes_nothing: false },
+        Kind { text: "QTHR?", resp: Some("\"a;b,c\",#13x;y,15"), needs_br: false, writes_nothing: false },
         Kind { text: "QHDR?", resp: Some("HDR 1,-7"), needs_br: false, writes_nothing: false },
         Kind { text: "qhh?", resp: Some("LVL1:LVL2 \"q\"\"q\""), needs_br: false, writes_nothing: false },
         Kind { text: ":BR:BQ?", resp: Some("ABC,0"), needs_br: false, writes_nothing: false },
@@ -100,7 +100,7 @@ pub fn kinds(all: bool) -> Vec<Kind> {
             Kind { text: "*CQ?", resp: Some("42"), needs_br: false, writes_nothing: false },
             Kind { text: "BQ?", resp: Some("ABC,0"), needs_br: true, writes_nothing: false },
             Kind { text: ":BR?", resp: Some("ABC,0"), needs_br: false, writes_nothing: false },
-            Kind { text: ":QFL?", resp: Some("-0.0025,(1,2:3),#13h\u{e9}"), needs_br: false, writes_nothing: false },
+            Kind { text: ":QFL?", resp: Some("-25,(1,2:3),#13h\u{e9}"), needs_br: false, writes_nothing: false },
             Kind { text: ":QERR?", resp: Some("-113,\"Undefined header\",0"), needs_br: false, writes_nothing: false },
             Kind { text: ":QSEM?", resp: Some("#13ab;"), needs_br: false, writes_nothing: false },
             Kind { text: ":QNL?", resp: Some("1,#14abc\n"), needs_br: false, writes_nothing: false },
